@@ -11,6 +11,6 @@ def S(name, op, slen, alen, tiers, **kw):
     return Ob("string.%s.s%da%d" % (name, slen, alen), "C16/string_ops.c", defs=["SLEN=%d" % slen, "ALEN=%d" % alen, "OP=%s" % op],
               unwind=big, unwindset=us + ["vcap_new.0:26", "vcap_realloc.0:26", "vcap_check.0:26", "vcap_check.1:14", "vcap_find.0:14", "vcap_live.0:14"], checks=["bounds", "pointer"], tiers=tiers,
               filedefs={"String.c": ["-Drealloc=vcap_realloc", "-Dcalloc=vcap_calloc", "-Dfree=vcap_free"]}, srcs_extra=["env_vcap.c"], desc="String %s, initial <= %d chars, operands <= %d chars" % (name, slen, alen), **kw)
-OBLIGATIONS = [S(n, o, 3, 2, ("probe",), timeout=600) for n, o in [("assign", "OP_ASSIGN"), ("concat", "OP_CONCAT"), ("resize", "OP_RESIZE"), ("mem", "OP_MEM"), ("rem", "OP_REM"), ("remabsent", "OP_REM_ABSENT"), ("seq", "OP_SEQ")]]
+OBLIGATIONS = [S(n, o, 3, 2, ("probe",), timeout=600, backend=("z3" if n in ("assign", "seq") else None)) for n, o in [("assign", "OP_ASSIGN"), ("concat", "OP_CONCAT"), ("resize", "OP_RESIZE"), ("mem", "OP_MEM"), ("rem", "OP_REM"), ("remabsent", "OP_REM_ABSENT"), ("seq", "OP_SEQ")]]
 LEVEL_TEXT = "x"
 LEVEL_NOTE = "x"
